@@ -1,6 +1,6 @@
 (* C04 — Gherkin parsing is faithful: structure, text, tags, step types and line numbers.
    Statements only; proofs are in theories/GherkinProofs.v. *)
-From BV Require Import Base UStr GherkinTypes Gherkin GherkinProofs GherkinRowProofs GherkinBlockProofs GherkinTagProofs GherkinTableProofs GherkinDocProofs GherkinRichProofs GherkinDescrProofs GherkinBgProofs.
+From BV Require Import Base UStr GherkinTypes Gherkin GherkinProofs GherkinRowProofs GherkinBlockProofs GherkinTagProofs GherkinTableProofs GherkinDocProofs GherkinRichProofs GherkinDescrProofs GherkinBgProofs GherkinOutlineProofs.
 From BVGen Require Import GherkinTables.
 
 (* In every one of the languages of behave.i18n, every alias of every structural keyword, written as "<alias>: x", is
@@ -190,6 +190,21 @@ Theorem a_feature_with_background_is_parsed_into_exactly_what_was_written :
                   (expected_y scens (S lb + length bsteps)) code).
 Proof. exact a_feature_with_background_is_read_back_exactly. Qed.
 Print Assumptions a_feature_with_background_is_parsed_into_exactly_what_was_written.
+
+(* ... and with Scenario Outlines among the items: an outline's tags, description and steps as for a
+   scenario, then its Examples blocks in file order - each with the tags written above it, its
+   keyword, name and line, and its table (heading, rows in order with their cells and lines; a block
+   without rows has no table); any item may follow an Examples block, also the end of the text *)
+Theorem a_feature_with_outlines_is_parsed_into_exactly_what_was_written :
+  forall kw code fline falias fname fds its,
+  feature_line kw fline falias fname -> Forall (descr_line kw) fds -> Forall (item_ok kw) its ->
+  exists m',
+    finish_table (fold_left feed (fline :: fds ++ flat_map item_lines its) (ROk (init_state code kw VFeature StInitial))) = ROk m' /\
+    m_table m' = None /\
+    option_map fin_feature (m_feat m') =
+    Some (mkPFeat falias fname 1 [] (map strip fds) None (expected_items its (1 + length fds)) code).
+Proof. exact a_feature_with_outlines_is_read_back_exactly. Qed.
+Print Assumptions a_feature_with_outlines_is_parsed_into_exactly_what_was_written.
 
 (* non-vacuity: a German document with header, tags over two lines with a comment, a background, an outline with examples,
    a doc-string and a table with an escaped pipe, indentation, blank and comment lines *)
